@@ -38,7 +38,7 @@ TWIN_PROFILE = P.profile(p_seeded=1.0, p_maximize=1.0,
                                 "dont_run": 0.5, "eval_budget": 1.5},
                          entry_w={"tree": 9, "hms": 1, "minimize": 0}, p_cutoff=0.25, metaepochs=[2, 9])
 
-SHADOW_PROFILE = P.profile(p_maximize=0.6,
+SHADOW_PROFILE = P.profile(p_maximize=0.6, p_no_elite=0.15,
                            root_engines={"ea": 8, "de": 1, "shade": 1, "lhs": 1, "sobol": 0.5, "custom": 0.3},
                            leaf_engines={"ea": 5, "cma": 2, "local": 1, "de": 1},
                            ea_variants={"SEA": 4, "SEAWithCrossover": 3, "GAStyleSEA": 3, "SEAWithAdaptiveMutation": 2,
